@@ -65,13 +65,26 @@ def single_return(func):
     return rets[0]
 
 
+def current_lookup(ctx):
+    """Excitation.current is the solved current on the feed pulse (closed returned expression)"""
+    from ..symx import closed_returns
+    f = ctx.func('mininec.Excitation.current')
+    rets = closed_returns(ctx, f, private_only=True)
+    if len(rets) != 1:
+        return False, 'no single returned expression'
+    e = rets[0][1]
+    return norm(e) == 'self.parent.current[self.idx]', 'returns %s' % norm(e)
+
+
 def check_power_formula(ctx, ck, rule='R-DEP.power-formula', pid_key='mininec.Excitation.power'):
     f = ctx.func('mininec.Excitation.power')
-    fl = ctx.flow(f)
-    r = single_return(f)
-    ok, why = False, 'no single return expression'
-    if r is not None:
-        e = fl.inline(r.value, fl.node_id_of(r))
+    from ..symx import closed_returns
+    rets = closed_returns(ctx, f, private_only=True)
+    r = None
+    ok, why = False, 'no single returned expression (%d paths return)' % len(rets)
+    if len(rets) == 1:
+        r = f.node
+        e = rets[0][1]
         inner = real_part_of(e)
         outer_coef = 1
         if inner is None:
@@ -98,7 +111,7 @@ def check_power_formula(ctx, ck, rule='R-DEP.power-formula', pid_key='mininec.Ex
                 why = '%d conjugated factors, expected exactly one' % nconj
             else:
                 ok, why = True, '1/2 * Re(voltage * conj(current))'
-    ck.ob(rule, pid_key, ok, f.loc(r if r is not None else None), why)
+    ck.ob(rule, pid_key, ok, f.loc(), why)
     return ok
 
 
@@ -144,91 +157,68 @@ def run(ctx, ck):
     ck.floor('functions in matrix closure', len(seen), 30)
     # positive control: compute_rhs does read the sources
     rhs_f = m.func(RHS)
-    rhs_reads = [e for e in prog.effects[RHS] if (e.cls, e.attr) in forbidden]
+    rhs_cl = prog.closure([rhs_f], edge_filter=lambda e: e.callee.cls is rhs_f.cls and e.callee.name.startswith('_'))
+    rhs_reads = [e for q_ in rhs_cl for e in prog.effects.get(q_, []) if (e.cls, e.attr) in forbidden]
     ck.floor('source reads resolved in compute_rhs', len(rhs_reads), 2)
 
     # ------------------------------------------------------------------ D2
-    fl = ctx.flow(rhs_f)
-    stores = []
-    for n in walk_no_nested(rhs_f.node):
-        if isinstance(n, (ast.Assign, ast.AugAssign)):
-            tgts = n.targets if isinstance(n, ast.Assign) else [n.target]
-            for t in tgts:
-                if isinstance(t, ast.Subscript):
-                    stores.append((n, t))
-    # the stored-into vector must be what ends up in self.rhs
-    finals = assigns_to_attr(rhs_f, 'self.rhs')
-    ck.floor('assignments of self.rhs in compute_rhs', len(finals), 1)
-    ck.floor('element stores in compute_rhs', len(stores), 1)
-    for st, tgt in stores:
-        key = '%s|%s' % (RHS, norm(tgt))
-        nid = fl.node_id_of(st)
-        # loop variable over self.sources
-        loopvars = {}
-        p = parent(st)
-        while p is not None and p is not rhs_f.node:
-            if isinstance(p, ast.For) and isinstance(p.target, ast.Name):
-                loopvars[p.target.id] = p
-            p = parent(p)
-        if isinstance(st, ast.AugAssign) and not isinstance(st.op, ast.Add):
-            ck.ob('R-DEP.rhs-linear', key, False, rhs_f.loc(st), 'update operator is not = or +=')
-            continue
-        val = fl.inline(st.value, nid)
-        terms = sum_terms(val)
+    # on the symbolic weights model: every element store of compute_rhs is
+    #   rhs[<source>.idx] = (coefficient free of source data) * <source>.voltage
+    # for the element <source> of a loop over all of self.sources; the vector starts as zeros
+    from ._weights import rhs_model
+    import re as _re
+    g_, rents, rfinals, rpaths = rhs_model(ctx)
+    ck.floor('assignments of self.rhs in compute_rhs', len(rfinals), 1)
+    ck.floor('element stores in compute_rhs', len(rents), 1)
+    seen_keys = set()
+    for e_ in rents:
+        key = '%s|%s[%s]' % (RHS, e_.vector, _re.sub(r'_k\d+', '_k', e_.index))
         ok, why = True, ''
-        if len(terms) != 1:
-            ok, why = False, 'stored value is a sum of %d terms (inhomogeneous)' % len(terms)
+        if e_.problems:
+            ok, why = False, e_.problems[0]
+        elif e_.source is None or not _re.match(r'^self\.sources\[_k\d+\]$', e_.source):
+            ok, why = False, 'the voltage belongs to %s, not to the element of a loop over self.sources' % e_.source
+        elif e_.index != e_.source + '.idx':
+            ok, why = False, 'element index is %s, expected %s.idx' % (e_.index, e_.source)
         else:
-            pr = product_of(terms[0][1])
-            volt = [(t, x) for t, x in pr.num if isinstance(x, ast.Attribute) and x.attr == 'voltage']
-            others = [(t, x) for t, x in pr.num if (t, x) not in volt] + pr.den
-            if len(volt) != 1:
-                ok, why = False, ('%d bare `.voltage` numerator factors in %s (expected exactly 1; '
-                                  'a voltage inside abs()/.real/conj() is not linear)'
-                                  % (len(volt), norm(val)))
+            its = [t_ for k_, t_ in e_.conds if k_ == 'loop']
+            it_ok = any(t_ == 'self.sources' or (t_.startswith('_each(') and t_.endswith(', self.sources)')) for t_ in its)
+            bad_atoms = sorted({v_ for mono in e_.weight.t for v_, ex in mono
+                                if any(a_ in v_ for a_ in EXC_VALUE_ATTRS) or 'sources' in v_})
+            if not it_ok:
+                ok, why = False, 'sources loop iterates over %s, not over all of self.sources' % its
+            elif bad_atoms:
+                ok, why = False, 'coefficient depends on source data %s' % bad_atoms
             else:
-                base = volt[0][1].value
-                lv = base.id if isinstance(base, ast.Name) else None
-                loop = loopvars.get(lv)
-                if loop is None:
-                    ok, why = False, 'voltage does not belong to a loop variable'
-                elif norm(loop.iter) != 'self.sources':
-                    ok, why = False, 'sources loop iterates over %s, not over all of self.sources' \
-                        % norm(loop.iter)
-                else:
-                    for t, x in others:
-                        r = fl.roots(x, nid)
-                        badr = [a for a in r if a[0] == 'attrname' and a[1] in EXC_VALUE_ATTRS]
-                        badr += [a for a in r if a[0] == 'attr' and a[1].split('.')[-1] in EXC_VALUE_ATTRS]
-                        if badr:
-                            ok, why = False, 'coefficient %s depends on source data %s' % (t, badr)
-                    if ok:
-                        # index of the store is the source's registered index
-                        idx = tgt.slice
-                        if not (isinstance(idx, ast.Attribute) and idx.attr == 'idx' and
-                                isinstance(idx.value, ast.Name) and idx.value.id == lv):
-                            ok, why = False, 'element index is %s, expected %s.idx' % (norm(idx), lv)
-                        else:
-                            why = 'rhs[%s.idx] = (%s) * %s.voltage' % (
-                                lv, ' * '.join([repr(pr.coef)] + [t for t, _ in others]), lv)
-        ck.ob('R-DEP.rhs-linear', key, ok, rhs_f.loc(st), why)
-    # vector stored in self.rhs is the one written above and starts as zeros
-    for fin in finals:
-        v = fin.value
-        ok = False
-        why = 'self.rhs is not the vector filled in the loop'
-        if isinstance(v, ast.Name):
-            names = {t.value.id for _, t in stores if isinstance(t.value, ast.Name)}
-            if v.id in names:
-                # its creation: np.zeros(...)
-                creations = [d for d in fl.def_exprs(v.id, fl.node_id_of(fin)) if d[0] == 'assign']
-                zero = [d for d in creations if isinstance(d[1], ast.Call) and
-                        (dotted(d[1].func) or '').endswith('zeros')]
-                if creations and len(zero) == len(creations):
-                    ok, why = True, 'self.rhs = zero vector with one entry per source'
-                else:
-                    why = 'right-hand side vector is not created zero-filled'
-        ck.ob('R-DEP.rhs-linear', RHS + '|self.rhs', ok, rhs_f.loc(fin), why)
+                why = 'rhs[%s.idx] = (%r) * %s.voltage' % (e_.source, e_.weight, e_.source)
+        if (key, ok) in seen_keys:
+            continue
+        seen_keys.add((key, ok))
+        ck.ob('R-DEP.rhs-linear', key + ('' if ok else '|bad'), ok, rhs_f.loc(e_.stmt), why)
+    # the vector stored in self.rhs is the one written above and starts as zeros
+    ok = bool(rfinals)
+    why = 'self.rhs = zero vector with one entry per source'
+    vecs = {e_.vector for e_ in rents}
+    for p_, v_, st_ in rfinals:
+        ents_here = [e_ for e_ in rents if e_.path is p_]
+        if isinstance(v_, ast.Name):
+            if v_.id not in vecs:
+                ok, why = False, 'self.rhs is not the vector filled in the loop'
+        elif not (isinstance(v_, ast.Call) and (dotted(v_.func) or '').endswith('zeros')):
+            ok, why = False, 'self.rhs = %s' % norm(v_)[:60]
+    # creation of the vector: np.zeros(...) on every path
+    for p_ in rpaths:
+        pass
+    zero_ok = True
+    for n_ in walk_no_nested(rhs_f.node):
+        if isinstance(n_, ast.Assign) and len(n_.targets) == 1 and isinstance(n_.targets[0], ast.Name) and \
+           n_.targets[0].id in vecs:
+            v_ = n_.value
+            if not (isinstance(v_, ast.Call) and (dotted(v_.func) or '').endswith('zeros')):
+                zero_ok = False
+    if ok and not zero_ok:
+        ok, why = False, 'right-hand side vector is not created zero-filled'
+    ck.ob('R-DEP.rhs-linear', RHS + '|self.rhs', ok, rhs_f.loc(), why)
 
     # compute_currents: solve(self.Z, self.rhs)
     cc = m.func('mininec.Mininec.compute_currents')
@@ -243,41 +233,40 @@ def run(ctx, ck):
 
     # ------------------------------------------------------------------ D3
     check_power_formula(ctx, ck)
+    # the power that normalises the dBi pattern is the sum of the source powers (a pattern that is to be
+    # unchanged under a common complex factor on all voltages needs exactly Re(V conj I) per source)
+    from .C01 import check_total_power
+    ck.rule('R-DEP.total-power', 'self.power = sum of the power of all sources, after the solve')
+    check_total_power(ctx, ck)
+    from ..symx import closed_returns
     f = m.func('mininec.Excitation.impedance')
-    r = single_return(f)
-    ok, why = False, 'no single return'
-    if r is not None:
-        e = ctx.flow(f).inline(r.value)
+    rets = closed_returns(ctx, f, private_only=True)
+    ok, why = False, 'no single returned expression'
+    if len(rets) == 1:
+        e = rets[0][1]
         p = product_of(e)
         n, d = p.texts()
         ok = (n == ['self.voltage'] and d == ['self.current'] and p.coef == 1)
         why = 'returns %s' % norm(e)
-    ck.ob('R-DEP.impedance-formula', f.qual, ok, f.loc(r), why)
+    ck.ob('R-DEP.impedance-formula', f.qual, ok, f.loc(), why)
 
+    ok, why = current_lookup(ctx)
     f = m.func('mininec.Excitation.current')
-    r = single_return(f)
-    ok, why = False, 'no single return'
-    if r is not None:
-        e = ctx.flow(f).inline(r.value)
-        ok = norm(e) == 'self.parent.current[self.idx]'
-        why = 'returns %s' % norm(e)
-    ck.ob('R-DEP.current-lookup', f.qual, ok, f.loc(r), why)
+    ck.ob('R-DEP.current-lookup', f.qual, ok, f.loc(), why)
 
     f = m.func('mininec.Excitation.register')
     params = f.params
-    stored = {}
-    for s_ in walk_no_nested(f.node):
-        if isinstance(s_, ast.Assign):
-            for t in s_.targets:
-                if isinstance(t, ast.Attribute):
-                    stored[dotted(t)] = s_.value
-                elif isinstance(t, (ast.Tuple, ast.List)) and isinstance(s_.value, (ast.Tuple, ast.List)) \
-                        and len(t.elts) == len(s_.value.elts):
-                    for te, ve in zip(t.elts, s_.value.elts):
-                        if isinstance(te, ast.Attribute):
-                            stored[dotted(te)] = ve
-    ok = len(params) >= 3 and norm(stored.get('self.idx', ast.Constant(value=None))) == params[2] and \
-        norm(stored.get('self.parent', ast.Constant(value=None))) == params[1]
+    from ..symx import SymExec
+    stored_sets = []
+    for p_ in SymExec(ctx, f, private_only=True).run():
+        if p_.end == 'raise':
+            continue
+        fin = {}
+        for k_, v_, st_ in p_.stores:
+            fin[k_] = norm(v_)
+        stored_sets.append(fin)
+    ok = len(params) >= 3 and bool(stored_sets) and all(
+        fin.get('self.idx') == params[2] and fin.get('self.parent') == params[1] for fin in stored_sets)
     ck.ob('R-DEP.current-lookup', f.qual, ok, f.loc(), 'register(parent, pulse) stores both unchanged')
 
     # coefficient of one source must not depend on the other sources (weight re-initialised per source)
